@@ -73,9 +73,21 @@ static std::string why(const std::string &r) {
   return "dispatch";
 }
 
+// a user type with a registered conversion: arguments converted for a call are kept ("saves") until the outermost call returns
+struct VSrc { int v; };
+struct VDst { int v; };
+static int g_dst_live = 0;
+struct VDstCounted { int v; VDstCounted(int x) : v(x) { ++g_dst_live; } VDstCounted(const VDstCounted &o) : v(o.v) { ++g_dst_live; } ~VDstCounted() { --g_dst_live; } };
+
 template<typename Chai>
 static void setup(Chai &chai) {
   chai.add(fun([](const Boxed_Value &v) { g_out.push_back(show(v)); }), "pr");
+  chai.add(user_type<VSrc>(), "VSrc");
+  chai.add(user_type<VDstCounted>(), "VDst");
+  chai.add(fun([](int v) { return VSrc{v}; }), "mk_src");
+  chai.add(fun([](const VDstCounted &d) { return d.v; }), "take_dst");
+  chai.add(fun([](const VDstCounted &d, int k) { return d.v + k; }), "take_dst");
+  chai.add(type_conversion<VSrc, VDstCounted>([](const VSrc &s) { return VDstCounted(s.v); }));
   for (int k = 0; k < 4; ++k) {
     const std::string name = "cb" + std::to_string(k);
     chai.add(fun([k]() { return native(k, {}); }), name);
@@ -119,6 +131,7 @@ static std::string run_one(Chai &chai, const std::string &src, const AST_Node *a
   size_t saved = 0;
   for (auto &p : sh.call_params) saved += p.size();
   if (saved != 0) shape += " SAVED-PARAMS-LEFT=" + std::to_string(saved);
+  // (g_dst_live is not reported: Type_Conversions keeps the last call's conversions until the next call on the thread; see checks/c09.py)
   std::string names;
   if (!sh.stacks.empty() && !sh.stacks[0].empty()) {
     for (auto &p : sh.stacks[0][0]) { if (!names.empty()) names += ","; names += p.first; }
